@@ -70,6 +70,8 @@ type fakeEnv struct {
 	evalNow   time.Time // the job clock at the start of the evaluation in progress (hook)
 	formed    [][]string
 	illegal   []string // members of a formed assembly that were not registered-and-live at that evaluation
+	slowNext  chan struct{} // armed: the next Deploy call parks until it is closed (a member that loads for a long time)
+	parked    bool          // a Deploy call is parked on slowNext
 }
 
 func (e *fakeEnv) logf(f string, a ...any) {
@@ -150,6 +152,12 @@ func (s *fakeSR) StartCheckpoint(ctx context.Context, id uint64) error {
 
 func (e *fakeEnv) onDeploy(id string, ops []*jobpb.NodeIdentity, cks []*snapshotpb.OperatorCheckpoint) error {
 	e.mu.Lock()
+	if ch := e.slowNext; ch != nil && !e.parked {
+		e.parked = true
+		e.mu.Unlock()
+		<-ch
+		e.mu.Lock()
+	}
 	defer e.mu.Unlock()
 	d := fDeploy{tick: lib.Tick.Add(1), node: id}
 	for _, o := range ops {
@@ -234,6 +242,15 @@ func (e *fakeEnv) installHooks() {
 			a := arg.(*jobs.Assembly)
 			ids := append(append([]string{}, a.OperatorIDs()...), a.SourceRunnerIDs()...)
 			e.mu.Lock()
+			foreign := true
+			for _, id := range ids {
+				foreign = foreign && e.nodes[id] == nil
+			}
+			if foreign {
+				// the job of an earlier case of this process that is still retrying (node ids carry the case index)
+				e.mu.Unlock()
+				return
+			}
 			e.formed = append(e.formed, ids)
 			if len(a.OperatorIDs()) != e.workers || len(a.SourceRunnerIDs()) != e.workers {
 				e.illegal = append(e.illegal, fmt.Sprintf("assembly %v has %d operators and %d source runners, configured: %d", ids, len(a.OperatorIDs()), len(a.SourceRunnerIDs()), e.workers))
@@ -307,8 +324,8 @@ func c15Fake(c *lib.Ctx) {
 	defer vhook.Set(nil)
 	var ops, srs []*fnode
 	for i := 0; i < workers+standbys; i++ {
-		o := &fnode{id: fmt.Sprintf("op%d", i), isOp: true, alive: true}
-		s := &fnode{id: fmt.Sprintf("sr%d", i), alive: true}
+		o := &fnode{id: fmt.Sprintf("op%d.%d", i, c.Index), isOp: true, alive: true}
+		s := &fnode{id: fmt.Sprintf("sr%d.%d", i, c.Index), alive: true}
 		e.nodes[o.id], e.nodes[s.id] = o, s
 		ops, srs = append(ops, o), append(srs, s)
 	}
@@ -362,10 +379,32 @@ func c15Fake(c *lib.Ctx) {
 			}
 		}
 	}
+	releaseSlow := func() {
+		e.mu.Lock()
+		ch := e.slowNext
+		e.slowNext, e.parked = nil, false
+		e.mu.Unlock()
+		if ch != nil {
+			close(ch)
+		}
+	}
+	defer func() {
+		// nothing of this case's job may still be deploying when the next case installs its hooks
+		releaseSlow()
+		e.sync()
+		e.waitStatus(2*time.Second, "Running", "Paused", "Init")
+	}()
 	// the script
 	nsteps := 10 + r.Intn(40)
 	for step := 0; step < nsteps; step++ {
-		switch x := r.Intn(20); {
+		switch x := r.Intn(21); {
+		case x == 20:
+			e.mu.Lock()
+			if e.slowNext == nil {
+				e.slowNext = make(chan struct{})
+				e.logf("the next Deploy call takes long (the member keeps loading)")
+			}
+			e.mu.Unlock()
 		case x < 6:
 			n := lib.Pick(r, all)
 			if n.alive {
@@ -415,13 +454,62 @@ func c15Fake(c *lib.Ctx) {
 			e.mu.Unlock()
 		}
 		e.sync()
+		// a deployment is in progress and one member is still loading: membership changes while the job is Starting
+		// (the deployment runs in its own goroutine: while the job is Starting, wait for the armed Deploy to park)
+		for dl := time.Now().Add(5 * time.Second); e.job.VerifStatus() == "Starting" && time.Now().Before(dl); {
+			e.mu.Lock()
+			p, armed := e.parked, e.slowNext != nil
+			e.mu.Unlock()
+			if p || !armed {
+				break
+			}
+			time.Sleep(100 * time.Microsecond)
+		}
+		e.mu.Lock()
+		inDeploy := e.parked
+		var forming []string
+		if len(e.formed) > 0 {
+			forming = e.formed[len(e.formed)-1]
+		}
+		e.mu.Unlock()
+		if inDeploy {
+			c.Feat("membership_changes_during_deployment", 1)
+			for k := 1 + r.Intn(2); k > 0; k-- {
+				switch r.Intn(4) {
+				case 0, 1:
+					n := e.nodes[lib.Pick(r, forming)]
+					e.logf("during the deployment: deregister member %s", n.id)
+					e.deregister(n)
+				case 2:
+					n := lib.Pick(r, all)
+					if n.alive {
+						e.logf("during the deployment: register %s", n.id)
+						e.register(n)
+					}
+				default:
+					e.logf("during the deployment: 3s pass, live nodes heartbeat")
+					e.advance(3 * time.Second)
+					for _, n := range alive() {
+						if n.registered {
+							e.register(n)
+						}
+					}
+				}
+				e.sync()
+			}
+			e.logf("the slow Deploy call returns")
+			releaseSlow()
+			e.sync()
+		}
 		// deployments run asynchronously: let the job settle before time moves on, so that "live at the moment
 		// of the Deploy call" is decidable
 		if !e.waitStatus(5*time.Second, "Running", "Paused", "Init") {
 			c.Inconclusive("the job stayed in status %s", e.job.VerifStatus())
 		}
 		e.checkDeploys()
+		e.checkRunningOnMembers()
 	}
+	releaseSlow()
 	// faults stop: revive nothing, but make sure enough fresh nodes exist and everybody heartbeats
 	e.logf("faults stop: fresh nodes register until %d of each kind are live", workers)
 	liveOps, liveSRs := 0, 0
@@ -436,7 +524,7 @@ func c15Fake(c *lib.Ctx) {
 	}
 	for i := 0; liveOps < workers || liveSRs < workers; i++ {
 		if liveOps < workers {
-			o := &fnode{id: fmt.Sprintf("opx%d", i), isOp: true, alive: true}
+			o := &fnode{id: fmt.Sprintf("opx%d.%d", i, c.Index), isOp: true, alive: true}
 			e.mu.Lock()
 			e.nodes[o.id] = o
 			e.mu.Unlock()
@@ -444,7 +532,7 @@ func c15Fake(c *lib.Ctx) {
 			liveOps++
 		}
 		if liveSRs < workers {
-			s := &fnode{id: fmt.Sprintf("srx%d", i), alive: true}
+			s := &fnode{id: fmt.Sprintf("srx%d.%d", i, c.Index), alive: true}
 			e.mu.Lock()
 			e.nodes[s.id] = s
 			e.mu.Unlock()
@@ -501,6 +589,33 @@ func c15Fake(c *lib.Ctx) {
 	if c.Index < 3 {
 		c.Sample(map[string]any{"workers": workers, "standbys": standbys, "script": e.log})
 	}
+}
+
+// checkRunningOnMembers (safety): "when a member deregisters the job stops using that assembly" — once the job
+// has processed a deregistration (deregister() pushes two more tasks through the serial queue before it counts)
+// and has settled, it is not Running on an assembly that contains the departed member.
+func (e *fakeEnv) checkRunningOnMembers() {
+	e.sync()
+	if e.job.VerifStatus() != "Running" {
+		return
+	}
+	e.mu.Lock()
+	var last []string
+	gone := ""
+	if len(e.formed) > 0 {
+		last = e.formed[len(e.formed)-1]
+		for _, id := range last {
+			if n := e.nodes[id]; n != nil && !n.registered && gone == "" {
+				gone = id
+			}
+		}
+	}
+	w := map[string]any{"workers": e.workers, "script": append([]string{}, e.log...), "assembly": last, "job_status": "Running"}
+	e.mu.Unlock()
+	if gone != "" {
+		e.c.Fail("running-on-departed-member", w, "the job is Running on assembly %v although %s has deregistered and the job has processed that call", last, gone)
+	}
+	e.c.Feat("running_assembly_membership_checks", 1)
 }
 
 // checkDeploys (safety): every Deploy went to a node the job may consider registered and live, names exactly
